@@ -424,6 +424,10 @@ pub trait VxSliceStr {
     spec fn elems(&self) -> Seq<Seq<char>>;
     fn vx_contains(&self, x: &&str) -> (r: bool) ensures r == self.elems().contains(x@);
 }
+impl<'a> VxSliceStr for Vec<&'a str> {
+    open spec fn elems(&self) -> Seq<Seq<char>> { self@.map_values(|e: &str| e@) }
+    #[verifier::external_body] fn vx_contains(&self, x: &&str) -> (r: bool) { self.contains(x) }
+}
 impl<'a> VxSliceStr for [&'a str] {
     open spec fn elems(&self) -> Seq<Seq<char>> { self@.map_values(|e: &str| e@) }
     #[verifier::external_body] fn vx_contains(&self, x: &&str) -> (r: bool) { self.contains(x) }
